@@ -1,5 +1,7 @@
 (* C13 Spec: the ring as a set of (position, node) pairs determined by membership alone. *)
-From God Require Import Base.Prelude.
+From God Require Import Base.Prelude C13.Model.
+Require Coq.Strings.String.
+Import Coq.Strings.String.StringSyntax.
 Local Open Scope N_scope.
 
 Section Spec.
@@ -30,3 +32,16 @@ Section Spec.
     match o with SAdd n r => m_add n r cap m | SRemove n => m_remove n m end.
   Definition srun (cap : nat) (ops : list sop) : members := fold_left (sstep cap) ops [].
 End Spec.
+
+(* What a key or a node IS for the ring: its text. A pointer stands for the value it points to, a Stringer for
+   its String() (also on a nil receiver), a nil pointer of any other type for "<nil>" as fmt prints it, the nil interface for "".
+   Two Go values with the same text are the same key / the same node. *)
+Local Open Scope string_scope.
+Definition text_of (v : gval) : string :=
+  match v with
+  | GNil => ""
+  | GStringer s => s
+  | GPtr (Some t) => t
+  | GPtr None => "<nil>"
+  | GVal t => t
+  end.
